@@ -16,7 +16,7 @@ CLAUSES = {
             "found:createobject", "found:pe"},
     "C12": {"url.parts", "url.part.span", "url.part.value", "url.part.label", "win.value", "win.label", "win.type", "win.parts"},
 }
-PRE = [b"", b" ", b"x = ", b"see ", b"\x00\x01 ", b"1234567 ", b"abc;\n", b", "]
+PRE = [b"", b" ", b"x = ", b"see ", b"\x00\x01 ", b"1234567 ", b"abc;\n", b", ", b"[", b"<", b"{ "]
 SUF = [b"", b" ", b" and more", b"\n", b", next", b" ;"]
 
 
@@ -55,6 +55,9 @@ def context_urls() -> list[bytes]:
     for opener, closer in ((b"'", b"'"), (b"(", b")")):      # punctuation right before the closing character, more URL characters behind it
         for last in (b".", b",", b";", b")", b"'", b"/", b"..", b"/v1."):
             out += [b"x = " + opener + b"http://example.com/dl" + last + closer + b"+name", opener + b"https://evil-site.net/a%41" + last + closer + b"/more.exe"]
+    for opener, closer in ((b"(", b")"), (b"'", b"'")):      # the closing character sits inside the userinfo: what is left has no host
+        for ui in (b":", b"@", b"u:", b"u@", b"u:p@", b":@"):
+            out += [b"x = " + opener + b"http://" + ui + closer + b"+creds+" + closer + b"@host.example.com/a" + closer, opener + b"ftp://" + ui + closer + b" tail"]
     for opener, closer in ((b"(", b")"), (b"'", b"'")):      # the closing character sits before the host
         out += [opener + b"http://" + closer + b"@evil.example.com/x", b"call " + opener + b"ftp://u" + closer + b":p@host.example.org/ end",
                 opener + b"https://" + closer, b"fetch" + opener + b"http://" + closer + b"@evil.example.com/payload) and run"]
@@ -66,7 +69,7 @@ def context_urls() -> list[bytes]:
     return out
 
 
-HOST_SHAPES = [b"example.com", b"info", b"com", b".com", b"docs", b"museum", b"example.com.", b"a..com", b"example.invalidtld", b"localhost", b"a.b",
+HOST_SHAPES = [b"192.168.01.10", b"010.1.1.1", b"1.2.3.04", b"0x7f.0.0.1", b"example.com", b"info", b"com", b".com", b"docs", b"museum", b"example.com.", b"a..com", b"example.invalidtld", b"localhost", b"a.b",
                b"-.com", b"x.co", b"name.Info", b"EXAMPLE.COM", b"1.2.3", b"999.1.1.1", b"1.2.3.4", b"sub.evil-site.net", b"xn--p1ai", b"a_b.com"]
 
 
@@ -197,6 +200,9 @@ def instances(rng: random.Random, tier: str) -> list[dict]:
         # met as nodes by C10 / C12 when they occur, but are not demanded as instances)
         hostlike = len(host) >= 4 and b"." in host.strip(b".") and not host.startswith(b".") and b".." not in host and not host.endswith(b".")
         add("url", u, neutral=hostlike and not u.endswith((b"'", b")", b",", b".", b";")) and b"[" not in u and b"(" not in u)
+    for u in (b"http://[2001:db8::1]/a", b"https://[::1]:8080/x?y=1", b"ftp://u:p@[fe80::1]/", b"http://[2001:DB8:0:0:0:0:0:1]/"):
+        for _rep in range(4):          # (bracketed hosts, under several of the rotating prefixes, among them an opening bracket)
+            add("url", u)
     for _ in range(60 if tier == "quick" else 1000):
         local = rng.choice([b"user", b"first.last", b"a+b", b"x_y%z", b"abc"])
         add("email", local + b"@" + rng.choice(labels[2:5]) + b"." + rng.choice(tlds[:4]))
